@@ -392,6 +392,10 @@ def check_map_construction(entries):
 
 def run_case(case):
     _load()
+    if case.get("op") == "appsub":
+        # (a replay runs in a process of its own, which is the fresh interpreter the shard needs)
+        r = _app_subclass_shard((0, case["which"]))
+        return [(sig, v["msg"]) for sig, v in r.violations.items()]
     k = case["kind"]
     if k == "decode":
         return check_decode(case["v"], case["maptype"], case["use_map"])
@@ -468,6 +472,75 @@ def _shard(arg):
     return res
 
 
+def _app_subclass_shard(arg):
+    """Fresh interpreter.  The application derives its own classes from the public event classes (to add behaviour);
+    afterwards every event frame still decodes to an object of the same stock class with the same fields - with no
+    map, an empty map, a map that knows the instance and a map that does not."""
+    seed, which = arg
+    res = Result()
+    command, frame = _load()
+    import dali.device.general as dg
+    import dali.device.pushbutton as pb
+    import dali.device.occupancy as oc
+    import dali.device.light as li
+    from dali.device.helpers import DeviceInstanceTypeMapper
+    stock = []
+    for mod in (dg, pb, oc, li):
+        for n, c in sorted(vars(mod).items()):
+            if isinstance(c, type) and issubclass(c, dg._Event) and not n.startswith("_") and c.__module__ == mod.__name__:
+                stock.append(c)
+
+    def stock_name(c):
+        for k in type(c).__mro__:
+            if k in stock or k.__module__.startswith("dali."):
+                return k.__name__
+        return type(c).__name__
+
+    def fp(v, m):
+        try:
+            c = command.Command.from_frame(frame.ForwardFrame(24, v), dev_inst_map=m)
+            d = describe(c)
+            d["cls"] = stock_name(c)
+            return repr(sorted(d.items(), key=repr))
+        except Exception as e:  # noqa
+            return "raised %s" % type(e).__name__
+
+    def maps():
+        known = DeviceInstanceTypeMapper()
+        for a in range(0, 64, 5):
+            for i in range(0, 32, 3):
+                known.add_type(short_address=a, instance_number=i, instance_type=[1, 3, 4, 0, 7][(a + i) % 5])
+        return {"none": None, "empty": DeviceInstanceTypeMapper(), "known": known}
+    frames = []
+    for a in (0, 5, 10, 63, 0x40, 0x43, 0x5F, 0x60, 0x63, 0x7F):   # bits 23..17: short address / device group / instance group / instance
+        for i in (0x00, 0x01, 0x03, 0x04, 0x1F, 0x20, 0x21, 0x23, 0x3F):   # bits 15..10: instance type / instance number
+            for data in (0, 1, 2, 5, 0x0F, 0x155, 0x3FF):
+                frames.append((a << 17) | (i << 10) | data)
+    frames = sorted(set(frames))
+    ms = maps()
+    base = {(v, k): fp(v, m) for v in frames for k, m in ms.items()}
+    picked = stock if which == "all" else [c for c in stock if c.__name__ == which]
+    made = []
+    for c in picked:
+        try:
+            made.append(type("App" + c.__name__, (c,), {"note": "application subclass"}))
+        except Exception:  # noqa - some event classes refuse to be derived from (deliberately): nothing to compare then
+            res.excluded["event class refuses subclasses: " + c.__name__] += 1
+    ms = maps()
+    for v in frames:
+        for k, m in ms.items():
+            res.count()
+            res.nontrivial()
+            got = fp(v, m)
+            if got != base[(v, k)]:
+                res.violation("C12:decode-changed-by-application-subclass:%s" % which, {"op": "appsub", "which": which, "v": v, "map": k},
+                              "after the application derived its own classes from %s, frame %#08x (map: %s) decodes as %s; before: %s"
+                              % (which if which != "all" else "every public event class", v, k, got, base[(v, k)]))
+                break
+    res.label("application-subclasses-of:" + which, 1)
+    return res
+
+
 def run(ctx):
     q, s = ctx.quick, ctx.seed
     shards = []
@@ -488,5 +561,7 @@ def run(ctx):
         shards.append(("meta", srcs[k:k + per], list(range(32)) + [32, 77, 255], datas))
     shards.append(("mapctor", s + 1, 300 if q else 5000))
     ctx.pmap(_shard, shards)
+    ctx.pmap(_app_subclass_shard, [(s, w) for w in ("all", "UnknownEvent", "AmbiguousInstanceType", "ButtonPressed", "OccupancyEvent",
+                                                    "LightEvent")], fresh=True)
     ctx.result.exhaustive = not q
     ctx.result.extra["strides"] = {"event_space_no_map": st, "device_instance_x_map": stm}
